@@ -77,6 +77,21 @@ pub fn props() -> Vec<PropCfg> {
             stub: R_STUB,
         },
         PropCfg {
+            id: "C08",
+            profiles: &[("C08", 3), ("C08-obst", 1)],
+            quick_runs: 400,
+            thorough_runs: 20_000,
+            level: "fault_enumeration",
+            rule: "one history = one seeded world-R scenario (both open modes, pre/post triggers, window sizes, 1-3 writers); profile C08 executes it fault-free, records every occurrence of a rotation-step site (each archive shift, the final move/compress sub-steps, delete, reopen) and re-executes it once per occurrence with an error injected there and once with a crash image taken there (exhaustive per history; evaluations counts all executions); profile C08-obst makes a step fail with its real errno by placing a non-empty directory at an archive name; every faulted execution ends with the bounded-liveness epilogue (same appender, and a fresh appender over the crash image); non-trivial = a fault or crash actually fired; distinct = distinct event-log fingerprints",
+            assumptions: &[
+                "crash model is process death: user-space buffers are lost, everything handed to write(2)/rename(2) survives (log4rs never fsyncs; power loss is out of scope)",
+                "faults are injected before a step has any effect (hook) or arise from the real filesystem (obstacles, second mount); a failure in the middle of fs::copy(..).and_then(remove) is not injectable",
+                "background_rotation is excluded (its errors are only printed)",
+            ],
+            real: R_REAL,
+            stub: R_STUB,
+        },
+        PropCfg {
             id: "C16",
             profiles: &[("C16", 7), ("C16-huge", 1)],
             quick_runs: 8000,
@@ -160,6 +175,10 @@ pub struct WorkerSummary {
     pub faults: BTreeMap<String, u64>,
     pub samples: Vec<serde_json::Value>,
     pub wall_s: f64,
+    #[serde(default)]
+    pub histories: u64,
+    #[serde(default)]
+    pub fault_points: u64,
 }
 
 fn relevant<'a>(prop: &str, out: &'a Outcome) -> Option<&'a Violation> {
@@ -176,8 +195,21 @@ pub fn worker(prop_id: &str, tier: Tier, root: u64, from: u64, to: u64, outdir: 
     for index in from..to {
         let profile = profile_for(&cfg, index);
         let seed = run_seed(root, profile, index);
-        let scn = worlds::generate(profile, tier, seed);
-        let out = worlds::execute(&scn, &ExecOpts::default());
+        let scn0 = worlds::generate(profile, tier, seed);
+        let out0 = worlds::execute(&scn0, &ExecOpts::default());
+        let vars = if out0.harness_error.is_none() { worlds::variants(profile, &scn0, &out0) } else { vec![] };
+        if !vars.is_empty() {
+            sum.histories += 1;
+            sum.fault_points += vars.len() as u64;
+        }
+        let mut todo: Vec<(Scenario, Option<Outcome>)> = vec![(scn0, Some(out0))];
+        todo.extend(vars.into_iter().map(|v| (v, None)));
+        let mut stalled = false;
+        for (vi, (scn, pre)) in todo.into_iter().enumerate() {
+        let out = match pre {
+            Some(o) => o,
+            None => worlds::execute(&scn, &ExecOpts::default()),
+        };
         sum.runs += 1;
         sum.decisions += out.summary.decisions.len() as u64;
         sum.switches += out.summary.switches;
@@ -207,6 +239,7 @@ pub fn worker(prop_id: &str, tier: Tier, root: u64, from: u64, to: u64, outdir: 
             }
             if e.starts_with("STALL") {
                 // threads of that run are still parked: this process is no longer clean
+                stalled = true;
                 break;
             }
             continue;
@@ -229,10 +262,14 @@ pub fn worker(prop_id: &str, tier: Tier, root: u64, from: u64, to: u64, outdir: 
                     minimised: false,
                     original_size: BTreeMap::new(),
                 };
-                let p = outdir.join(format!("raw-{}-{}.json", prop_id, seed));
+                let p = outdir.join(format!("raw-{}-{}-{}.json", prop_id, seed, vi));
                 fs::write(&p, serde_json::to_vec_pretty(&rp).unwrap()).unwrap();
                 sum.violation_files.push(p.to_string_lossy().to_string());
             }
+        }
+        }
+        if stalled {
+            break;
         }
     }
     sum.nontrivial_hashes = nontrivial.into_iter().collect();
@@ -411,6 +448,8 @@ pub fn check(args: &CheckArgs) -> i32 {
         match ws {
             Some(ws) => {
                 total.runs += ws.runs;
+                total.histories += ws.histories;
+                total.fault_points += ws.fault_points;
                 total.violations += ws.violations;
                 total.decisions += ws.decisions;
                 total.switches += ws.switches;
@@ -520,6 +559,8 @@ pub fn check(args: &CheckArgs) -> i32 {
             "fault_kinds_injected": total.faults,
             "probes": total.probes,
             "workers": w,
+            "histories_enumerated": total.histories,
+            "fault_and_crash_points_enumerated": total.fault_points,
             "components_real": cfg.real,
             "components_stub": cfg.stub,
             "known_findings_printed": known_lines,
